@@ -55,11 +55,14 @@ def dictSet {α : Type} (l : List (String × α)) (k : String) (v : α) : List (
 /-- keys may list several labels separated by commas: `for ki in k.split(","): out[ki.strip()] = …` -/
 def splitKey (k : String) : List String := (k.splitOn ",").map fun s => s.trimAscii.toString
 
+/-- one entry of a per-environment dict: process the value, assign it to every label of the key -/
+def envDictStep (owner : Sys) (dim : Dim) (acc : List (String × Q)) (p : String × Num) : Res (List (String × Q)) :=
+  match processUnitVar p.2 owner dim with
+  | .error e => .error e
+  | .ok q => .ok ((splitKey p.1).foldl (fun a k => dictSet a k q) acc)
+
 def processEnvDict (es : List (String × Num)) (owner : Sys) (dim : Dim) : Res (List (String × Q)) :=
-  foldRes (fun acc (p : String × Num) =>
-    match processUnitVar p.2 owner dim with
-    | .error e => .error e
-    | .ok q => .ok ((splitKey p.1).foldl (fun a k => dictSet a k q) acc)) [] es
+  foldRes (envDictStep owner dim) [] es
 
 def processEnvNum (x : EnvNum) (owner : Sys) (dim : Dim) : Res EnvVal :=
   match x with
